@@ -418,6 +418,24 @@ class Series:
             raise AttributeError(n)
         raise ShimGap('Series.' + n)
 
+    def drop(self, labels=None, index=None, inplace=False, **kw):
+        if kw:
+            raise ShimGap('Series.drop(%s)' % ','.join(kw))
+        labs = index if index is not None else labels
+        if isinstance(labs, (Index, list, tuple, ndarray, Series)):
+            labs = list(labs.l) if isinstance(labs, Index) else list(_flat(labs))
+        else:
+            labs = [labs]
+        for l in labs:
+            if not builtins.any(_lab_eq(l, x) for x in self.index.l):
+                raise KeyError('%r not found in axis' % (l,))
+        keep = [i for i, l in enumerate(self.index.l) if not builtins.any(_lab_eq(l, x) for x in labs)]
+        if inplace:
+            self.v = [self.v[i] for i in keep]
+            self.index = Index([self.index.l[i] for i in keep])
+            return None
+        return self._take(keep)
+
     def duplicated(self, **kw):
         if kw:
             raise ShimGap('Series.duplicated(%s)' % ','.join(kw))
